@@ -195,6 +195,17 @@ pub fn codec(out_dir: &str) -> i32 {
     };
     const PAD_L: &[u8] = b"AAAAAAAAAAAAA";
     const PAD_R: &[u8] = b"ZZZ";
+    // the input being decoded, written before every decoder run: if the code under test takes the process down,
+    // bin/check finds here which input did it
+    let pending_path = format!("{out_dir}/pending.json");
+    let pending = std::fs::File::create(&pending_path).unwrap();
+    let note_pending = |what: &str, inp: Value| {
+        use std::os::unix::fs::FileExt;
+        let mut s = json!({"what":what,"input":inp}).to_string();
+        s.push('\n');
+        let _ = pending.set_len(0);
+        let _ = pending.write_all_at(s.as_bytes(), 0);
+    };
     for line in stdin.lock().lines() {
         let Ok(line) = line else { continue };
         if !line.starts_with('"') {
@@ -222,9 +233,23 @@ pub fn codec(out_dir: &str) -> i32 {
                 }
                 continue;
             }
-            for padded in [false, true] {
-                let (inp, exp): (Vec<u8>, Vec<u8>) = if padded { ([PAD_L, &b, PAD_R].concat(), [PAD_L, &t, PAD_R].concat()) } else { (b.clone(), t.clone()) };
+            // bare; padded across the inline limit; and placed so that the sequence ends exactly at byte 15 / 16, or
+            // begins exactly at byte 16 / 17 (the last inline byte doubles as the length tag)
+            const A16: &[u8] = b"AAAAAAAAAAAAAAAA";
+            let mut pads: Vec<(&[u8], &[u8])> = vec![(b"", b""), (PAD_L, PAD_R)];
+            if !b.is_empty() {
+                for end in [15usize, 16] {
+                    if b.len() <= end {
+                        pads.push((&A16[..end - b.len()], b""));
+                    }
+                }
+                pads.push((&A16[..15], b""));
+                pads.push((&A16[..16], b""));
+            }
+            for (pad_l, pad_r) in pads {
+                let (inp, exp): (Vec<u8>, Vec<u8>) = ([pad_l, &b, pad_r].concat(), [pad_l, &t, pad_r].concat());
                 checks += 1;
+                note_pending("utf8", json!(inp));
                 let before = shim::begin_call(&[]);
                 match LeanString::from_utf8(&inp) {
                     Ok(s) => {
@@ -291,15 +316,19 @@ pub fn codec(out_dir: &str) -> i32 {
                 }
                 continue;
             }
-            for padded in [false, true] {
-                let pl: Vec<u16> = "AAAAAAAAAAAAAA".encode_utf16().collect();
-                let pr: Vec<u16> = "ZZ".encode_utf16().collect();
-                let (inp, et, el): (Vec<u16>, Vec<u8>, Vec<u8>) = if padded {
-                    ([&pl[..], &u[..], &pr[..]].concat(), [b"AAAAAAAAAAAAAA", &t[..], b"ZZ"].concat(), [b"AAAAAAAAAAAAAA", &l[..], b"ZZ"].concat())
-                } else {
-                    (u.clone(), t.clone(), l.clone())
-                };
+            // bare; padded across the inline limit; behind 12..16 ASCII units (the decoded text then ends / begins around byte 16)
+            let mut pads16: Vec<(usize, usize)> = vec![(0, 0), (14, 2)];
+            if !u.is_empty() {
+                pads16.extend([(12, 0), (13, 0), (14, 0), (15, 0), (16, 0)]);
+            }
+            for (nl, nr) in pads16 {
+                let pl: Vec<u16> = std::iter::repeat(b'A' as u16).take(nl).collect();
+                let pr: Vec<u16> = std::iter::repeat(b'Z' as u16).take(nr).collect();
+                let (bl, br) = (vec![b'A'; nl], vec![b'Z'; nr]);
+                let (inp, et, el): (Vec<u16>, Vec<u8>, Vec<u8>) =
+                    ([&pl[..], &u[..], &pr[..]].concat(), [&bl[..], &t[..], &br[..]].concat(), [&bl[..], &l[..], &br[..]].concat());
                 checks += 1;
+                note_pending("utf16", json!(inp));
                 let before = shim::begin_call(&[]);
                 match LeanString::from_utf16(&inp) {
                     Ok(s) => {
@@ -330,6 +359,7 @@ pub fn codec(out_dir: &str) -> i32 {
     let summary = json!({"u8_sequences":n8,"u16_sequences":n16,"checks":checks,"spec_errors":spec_errors,"spec_error_samples":spec_samples,
         "findings":findings,"finding_kinds":kinds,"samples":samples,"tlc_tail":tlc_tail});
     std::fs::write(format!("{out_dir}/codec_summary.json"), serde_json::to_string_pretty(&summary).unwrap()).unwrap();
+    let _ = std::fs::remove_file(&pending_path);
     println!("codec: u8={n8} u16={n16} checks={checks} findings={} spec_errors={spec_errors}", kinds.values().sum::<u64>());
     0
 }
@@ -470,9 +500,14 @@ fn families(bits: u32, r: &mut Rng, per_digits: usize) -> Vec<u128> {
 struct Pieces {
     pieces: Vec<Vec<u8>>,
     fail_at: usize,
+    calls: std::cell::Cell<u32>,
 }
 impl std::fmt::Display for Pieces {
     fn fmt(&self, f: &mut std::fmt::Formatter<'_>) -> std::fmt::Result {
+        self.calls.set(self.calls.get() + 1);
+        if self.calls.get() > 1 {
+            return f.write_str(crate::pool::AGAIN); // `to_string()` formats a value exactly once
+        }
         for (i, p) in self.pieces.iter().enumerate() {
             if self.fail_at == i + 1 {
                 return Err(std::fmt::Error);
@@ -630,7 +665,7 @@ pub fn conv(out_dir: &str, files: usize, thorough: bool, seed: u64) -> i32 {
                 x /= piece_texts.len();
             }
             for fail_at in 0..=(n + 1) {
-                let p = Pieces { pieces: pieces.clone(), fail_at };
+                let p = Pieces { pieces: pieces.clone(), fail_at, calls: Default::default() };
                 let before = shim::begin_call(&[]);
                 let res = p.try_to_lean_string();
                 let st = shim::end_call(before);
@@ -640,6 +675,7 @@ pub fn conv(out_dir: &str, files: usize, thorough: bool, seed: u64) -> i32 {
                     Err(lean_string::ToLeanStringError::Reserve(_)) => ("err", "reserve", vec![]),
                 };
                 let mut std_s = String::new();
+                let p = Pieces { pieces: pieces.clone(), fail_at, calls: Default::default() }; // a fresh, identical value
                 let std_r = std::fmt::write(&mut std_s, format_args!("{}", p));
                 recs.push(json!({"k":"disp","pieces":pieces,"failat":fail_at,"cls":cls,"msg":msg,"text":text,
                     "stdcls":if std_r.is_ok() {"ok"} else {"err"},"stdtext":if std_r.is_ok() { std_s.as_bytes().to_vec() } else { vec![] },"dA":st.d_a}));
